@@ -70,10 +70,20 @@ void Oomd::updateContext() {
       // The /proc/swaps format is pretty bad. The first field is padded by
       // spaces but the rest of the fields are padded by '\t'. Since we don't
       // really care about the first field, we'll just split by '\t'.
-      OCHECK_EXCEPT(
-          parts.size() == 4, std::runtime_error("/proc/swaps malformed"));
-      system_ctx.swaptotal += std::stoll(parts[1]) * 1024; // Values are in KB
-      system_ctx.swapused += std::stoll(parts[2]) * 1024; // Values are in KB
+      // A line we cannot make sense of must not take the main loop down;
+      // ignore it and keep whatever the well-formed lines add up to.
+      if (parts.size() != 4) {
+        OLOG << "/proc/swaps malformed, ignoring line: " << (*swaps)[i];
+        continue;
+      }
+      try {
+        auto total_kb = std::stoll(parts[1]);
+        auto used_kb = std::stoll(parts[2]);
+        system_ctx.swaptotal += total_kb * 1024; // Values are in KB
+        system_ctx.swapused += used_kb * 1024; // Values are in KB
+      } catch (const std::exception&) {
+        OLOG << "/proc/swaps malformed, ignoring line: " << (*swaps)[i];
+      }
     }
   }
 
@@ -90,10 +100,13 @@ void Oomd::updateContext() {
     const static double factor300 = std::exp(-interval_.count() / 300.0);
 
     auto& prev_system_ctx = ctx_.getSystemContext();
-    if (prev_system_ctx.vmstat.size() > 0) {
-      auto swapout_bps = (system_ctx.vmstat.at("pswpout") -
-                          prev_system_ctx.vmstat.at("pswpout")) *
-          4096.0 / interval_.count();
+    auto pswpout = system_ctx.vmstat.find("pswpout");
+    auto prev_pswpout = prev_system_ctx.vmstat.find("pswpout");
+    // pswpout is absent from /proc/vmstat on kernels built without swap
+    if (pswpout != system_ctx.vmstat.end() &&
+        prev_pswpout != prev_system_ctx.vmstat.end()) {
+      auto swapout_bps =
+          (pswpout->second - prev_pswpout->second) * 4096.0 / interval_.count();
       system_ctx.swapout_bps = swapout_bps;
       system_ctx.swapout_bps_60 = swapout_bps +
           factor60 * (prev_system_ctx.swapout_bps_60 - swapout_bps);
